@@ -208,6 +208,7 @@ func newEnv(seed uint64, p *Plan, out *Outcome) *env {
 	muxRegReset(0)
 	richIdent.Store(false)
 	identNoCmd.Store(false)
+	rwLockSeam.Store(false)
 	spinSettle.on.Store(false)
 	curSim.Store(s)
 	return e
